@@ -253,15 +253,6 @@ def re_unmodelled(case):
     return "re" in ids_of(case) and any("s" in x and (set(x["s"]) & RE_UNMODELLED) for x in scalars(case))
 
 
-def in_domain(case):
-    """domain of the proved refinement theorem (C03_refines_spec): known modifiers, no encoding modifier
-    (C04), no placeholder named _windash, integers exactly representable as floats"""
-    ids = ids_of(case)
-    if any(m in ENCODERS for m in ids): return False
-    if k_lossy_int(case) or k_windash_placeholder(case): return False
-    return True
-
-
 TS = {"MINUTE": "TMinute", "HOUR": "THour", "DAY": "TDay", "WEEK": "TWeek", "MONTH": "TMonth", "YEAR": "TYear"}
 OPS = {"LT": "OLt", "LTE": "OLte", "GT": "OGt", "GTE": "OGte"}
 ERR = {"SigmaValueError": 1, "SigmaPlaceholderError": 2, "SigmaTypeError": 3, "SigmaConditionError": 4,
@@ -331,7 +322,7 @@ def item_to_coq(case, r):
         if r["and"] is None or type(r["neg"]) is not bool:
             vals.append("(VAtom AOther)")
         obs = f"(Ok ({clist(vals)}, {cbool(bool(r['and']))}, {cbool(bool(r['neg']))}))"
-    return f"(({key}, {yin}, {cid}, {cbool(in_domain(case))}, {obs}) : option str * yin * list str * bool * obs)"
+    return f"(({key}, {yin}, {cid}, {obs}) : option str * yin * list str * obs)"
 
 
 def mutate_item(case, rng):
@@ -369,7 +360,7 @@ def stratum_item(case, r):
     return f"len{min(n, 4)}-{res}"
 
 
-REQ = ["Base.Chars", "Base.Outcome", "Model.SString", "Model.Modifiers", "Spec.Items", "Spec.ModSpec", "Run.C03run"]
+REQ = ["Base.Chars", "Base.Outcome", "Model.SString", "Model.Modifiers", "Spec.Items", "Spec.ModSpec", "Proofs.ModifiersP", "Run.C03run"]
 PROPERTY = Property(
     pid="C03", props_file="Props/C03.v",
     suites=[Suite("item", gen_item, "run_item", REQ, "judge_item", item_to_coq, known=known_item, mutate=mutate_item,
